@@ -39,6 +39,10 @@ def world(name):
         extra = ["--high_memory", "--read_group", "read_id:_", "--count_exons"]
     if name == "w9":
         extra = ["GZ_GTF", "--transcript_quantification", "all", "--gene_quantification", "all"]   # gzipped GTF converted by the run itself
+    if name == "w10":
+        # the output folder holds a COMPLETE earlier run made with other options and --keep_tmp (its saved assignments and lock files are
+        # there); the run that is interrupted and resumed is a fresh start (--force) with default options in that folder
+        extra = ["STALE"]
     return w, extra
 
 
@@ -65,6 +69,12 @@ def build_template(name, d):
         import yaml
         with open(os.path.join(d, "in.yaml"), "w") as f:
             yaml.safe_dump([{"data format": "bam"}, {"name": "E1", "long read files": ["e1.bam"]}, {"name": "E2", "long read files": ["e2.bam"]}], f)
+    if "STALE" in extra:
+        # the earlier run in the same folder worked on other reads (every second record-name): its saved assignments are not this run's
+        seqs = syn.genome_sequences(w)
+        names = sorted(set(r["name"] for r in w["reads"]))
+        keep = set(names[::2])
+        syn.write_bam(w, os.path.join(d, "reads_a.bam"), reads=[r for r in w["reads"] if r["name"] in keep], seqs=seqs)
     if "GZ_GTF" in extra:
         import gzip
         with open(os.path.join(d, "annot.gtf"), "rb") as fi, gzip.open(os.path.join(d, "annot.gtf.gz"), "wb") as fo:
@@ -80,7 +90,7 @@ def fresh_copy(template, dest):
 def argv_for(d, extra, threads=1):
     ref = os.path.join(d, "ref.fa.gz") if os.path.exists(os.path.join(d, "ref.fa.gz")) else os.path.join(d, "ref.fa")
     extra = [x.replace("TEMPLATE_DIR", d) for x in extra]
-    flags = set(x for x in extra if x in ("NO_GENEDB", "YAML2", "GZ_GTF"))
+    flags = set(x for x in extra if x in ("NO_GENEDB", "YAML2", "GZ_GTF", "STALE"))
     extra = [x for x in extra if x not in flags]
     inp = ["--yaml", os.path.join(d, "in.yaml")] if "YAML2" in flags else ["--bam", os.path.join(d, "reads.bam")]
     if "NO_GENEDB" in flags:
@@ -90,7 +100,14 @@ def argv_for(d, extra, threads=1):
     else:
         gdb = ["--genedb", os.path.join(d, "annot.gtf"), "--complete_genedb"]
     return ["--output", os.path.join(d, "out"), "--reference", ref] + inp + ["--data_type", "nanopore",
-            "--prefix", "OUT", "--threads", str(threads)] + gdb + extra
+            "--prefix", "OUT", "--threads", str(threads)] + gdb + extra + (["--force"] if "STALE" in flags else [])
+
+
+def earlier_argv(d, extra):
+    """the complete earlier run of the stale-folder world: other reads, other options, intermediate files kept"""
+    a = argv_for(d, [x for x in extra if x != "STALE"] + ["--keep_tmp", "--transcript_quantification", "all", "--gene_quantification", "all",
+                                                          "--read_group", "read_id:_"])
+    return [os.path.join(d, "reads_a.bam") if x == os.path.join(d, "reads.bam") else x for x in a]
 
 
 def out_tree(d):
@@ -126,6 +143,11 @@ def crash_case(args):
     norm = crash.make_normaliser(d, chroms)
     labels = []
     argv = argv_for(d, extra)
+    if "STALE" in extra:
+        rc = run.run_isoquant(earlier_argv(d, extra), os.path.join(d, "home"), os.path.join(d, "stale.txt"))
+        if rc != 0:
+            raise core.HarnessError("the earlier run of the stale-folder world failed: %s" % open(os.path.join(d, "stale.txt")).read()[-300:])
+    stale_params = open(os.path.join(d, "out", ".params"), "rb").read() if "STALE" in extra else None
     for k, (idx, variant) in enumerate(crashes):
         rec = os.path.join(d, "crash%d.rec" % k)
         inj_args = (idx, variant, rec, norm)
@@ -143,7 +165,7 @@ def crash_case(args):
         lab = next(l for i, l in pts if i == idx)
         occ = sum(1 for i, l in pts if l == lab and i <= idx)
         labels.append("%s:%s#%d" % (variant, lab, occ))
-        if k == 0 and not params_ok(d):
+        if k == 0 and (not params_ok(d) or (stale_params is not None and open(os.path.join(d, "out", ".params"), "rb").read() == stale_params)):
             shutil.rmtree(d, ignore_errors=True)
             return labels, "out-of-scope", "parameters were not saved yet", len(pts)
     a = ["--resume", "--output", os.path.join(d, "out")] + (["--threads", str(resume_threads)] if resume_threads else [])
@@ -263,6 +285,14 @@ def discover(wname, scratch, resume_after=None):
 
     def hook():
         crash.Injector(0, "none", rec, norm).install()
+
+    def earlier(dd, ex):
+        # the stale-folder world: the reference is the uninterrupted run in a folder that holds the same earlier run
+        if "STALE" in ex:
+            rc_ = run.run_isoquant(earlier_argv(dd, ex), os.path.join(dd, "home"), os.path.join(dd, "stale.txt"))
+            if rc_ != 0:
+                raise core.HarnessError("the earlier run of the stale-folder world failed")
+    earlier(d, extra)
     rc = run.run_isoquant(argv_for(d, extra), os.path.join(d, "home"), os.path.join(d, "ref.txt"), pre_hook=hook)
     if rc != 0:
         raise core.HarnessError("reference run of %s failed: %s" % (wname, open(os.path.join(d, "ref.txt")).read()[-400:]))
@@ -272,6 +302,7 @@ def discover(wname, scratch, resume_after=None):
     d2 = os.path.join(scratch, "case_%s_disc2" % wname)
     fresh_copy(template, d2)
     extra2 = [l.rstrip("\n").replace(template, d2) for l in open(os.path.join(template, "EXTRA"))]
+    earlier(d2, extra2)
     rc = run.run_isoquant(argv_for(d2, extra2), os.path.join(d2, "home"), os.path.join(d2, "ref.txt"))
     t0b = out_tree(d2)
     if rc != 0 or t0b != t0:
@@ -324,7 +355,7 @@ def signature(status, detail):
 
 def run(ctx):
     quick = ctx.tier == "quick"
-    worlds_ = ["w1", "w2", "w3"] if quick else ["w1", "w2", "w3", "w4", "w5", "w6", "w7", "w8", "w9"]
+    worlds_ = ["w1", "w2", "w3", "w10"] if quick else ["w1", "w2", "w3", "w4", "w5", "w6", "w7", "w8", "w9", "w10"]
     if os.environ.get("VERIF_C07_WORLDS"):
         worlds_ = os.environ["VERIF_C07_WORLDS"].split(",")      # development aid: restrict the worlds
     total = 0
@@ -347,6 +378,8 @@ def run(ctx):
             for variant in ("before", "after"):
                 if quick and wname == "w3" and not (variant == "after" and phase_of("x:" + pts[i - 1][1]) in ("merge", "process-or-merge", "process")):
                     continue        # quick tier: the --keep_tmp world only in the phases where keeping intermediate files matters
+                if wname == "w10" and (variant == "before" or (quick and i > 16)):
+                    continue        # the stale-folder world: the window is the start of the run (until the old state is cleaned)
                 jobs.append((wname, [(i, variant)], None, ctx.scratch, wid, t0, chroms))
                 wid += 1
         if not quick and wname == "w2":
